@@ -1079,3 +1079,443 @@ func isExactConst(info *types.Info, e ast.Expr) bool {
 	}
 	return false
 }
+
+// ---------------------------------------------------------------------------
+// C18.bigfloat-exact-init, C15.number-parse-exact
+
+func init() {
+	register(&Rule{
+		ID: "C18.bigfloat-exact-init", Prop: "C18", Also: []string{"C02", "C11", "C16"}, Floor: 6, Controls: 1,
+		Doc: "a big.Float that receives an integer (SetInt, SetInt64, SetUint64, SetRat) was created with precision 0 — new(big.Float), &big.Float{} or a Copy of an operand — so that it takes the exact precision of what it is given; big.NewFloat(x) has the fixed 53-bit precision of a float64 and silently rounds integers above 2^53",
+		Run: runBigfloatExactInit,
+	})
+	register(&Rule{
+		ID: "C15.number-parse-exact", Prop: "C15", Also: []string{"C17"}, Floor: 1, Controls: 1,
+		Doc: "in the JSON decoder a number token becomes a cty number only through cty.ParseNumberVal (exact, 512-bit): no result of json.Number.Float64 / Int64 or strconv.ParseFloat / ParseInt / Atoi flows into NumberFloatVal / NumberIntVal / NumberUIntVal / NumberVal (a float64 detour rounds integers above 2^53 and long decimals)",
+		Run: runNumberParseExact,
+	})
+}
+
+func runBigfloatExactInit(rr *RuleRun) {
+	c := rr.Ctx
+	eachFuncBody(c, allPkgs, func(pkg string, fd *ast.FuncDecl, body *ast.BlockStmt) {
+		info := c.Info(pkg)
+		inspectNoLit(body, func(n ast.Node) bool {
+			call, ok := n.(*ast.CallExpr)
+			if !ok || !isCall(info, call, "math/big.Float.SetInt", "math/big.Float.SetInt64", "math/big.Float.SetUint64", "math/big.Float.SetRat") {
+				return true
+			}
+			se := call.Fun.(*ast.SelectorExpr)
+			key := fmt.Sprintf("%s.%s/%s", pkg, declName(fd), trunc(exprStr(call), 50))
+			// walk the receiver chain x.M1().M2() … down to its base expression
+			base := ast.Unparen(se.X)
+			fixed := ""
+			for depth := 0; depth < 8; depth++ {
+				if bc, ok := base.(*ast.CallExpr); ok {
+					if isCall(info, bc, "math/big.NewFloat") {
+						fixed = "big.NewFloat(…)"
+						break
+					}
+					if isCall(info, bc, "math/big.Float.SetPrec") {
+						if v, ok := constInt(info, bc.Args[0]); ok && v != 0 {
+							fixed = fmt.Sprintf("SetPrec(%d)", v)
+						}
+						break
+					}
+					if bs, ok := bc.Fun.(*ast.SelectorExpr); ok && namedType(info.TypeOf(bs.X)) == "math/big.Float" {
+						base = ast.Unparen(bs.X)
+						continue
+					}
+					break
+				}
+				if id, ok := base.(*ast.Ident); ok {
+					if o := info.Uses[id]; o != nil {
+						if _, idx, rhs := findDefine(info, body, o); rhs != nil && len(rhs) > idx && countAssigns(info, body, o) == 0 {
+							base = ast.Unparen(rhs[idx])
+							continue
+						}
+					}
+				}
+				break
+			}
+			if fixed != "" {
+				rr.Violation(key, call.Pos(), fmt.Sprintf("%s is called on a big.Float created by %s, which has a fixed precision (53 bits for NewFloat): an integer that needs more bits is silently rounded; use new(big.Float) / &big.Float{} so that the float takes the precision of the integer", se.Sel.Name, fixed))
+			} else {
+				rr.OKTrivial(key, call.Pos(), "the receiver is not a fixed-precision float")
+			}
+			return true
+		})
+	})
+}
+
+func runNumberParseExact(rr *RuleRun) {
+	c := rr.Ctx
+	pkg := "cty/json"
+	eachFuncBody(c, []string{pkg}, func(pkg string, fd *ast.FuncDecl, body *ast.BlockStmt) {
+		info := c.Info(pkg)
+		// variables holding a lossy parse of a number token
+		lossy := map[types.Object]string{}
+		isLossyCall := func(e ast.Expr) string {
+			call, ok := ast.Unparen(e).(*ast.CallExpr)
+			if !ok {
+				return ""
+			}
+			k := funcKey(callee(info, call))
+			switch k {
+			case "encoding/json.Number.Float64", "encoding/json.Number.Int64", "strconv.ParseFloat", "strconv.ParseInt", "strconv.ParseUint", "strconv.Atoi":
+				return k
+			}
+			return ""
+		}
+		var mentionsLossy func(e ast.Expr) string
+		mentionsLossy = func(e ast.Expr) string {
+			found := ""
+			ast.Inspect(e, func(n ast.Node) bool {
+				if found != "" {
+					return false
+				}
+				switch x := n.(type) {
+				case *ast.CallExpr:
+					if k := isLossyCall(x); k != "" {
+						found = k
+					}
+				case *ast.Ident:
+					if k, ok := lossy[info.Uses[x]]; ok {
+						found = k
+					}
+				}
+				return true
+			})
+			return found
+		}
+		for pass := 0; pass < 3; pass++ {
+			ast.Inspect(body, func(n ast.Node) bool {
+				as, ok := n.(*ast.AssignStmt)
+				if !ok {
+					return true
+				}
+				for i, l := range as.Lhs {
+					var r ast.Expr
+					if len(as.Rhs) == len(as.Lhs) {
+						r = as.Rhs[i]
+					} else if len(as.Rhs) == 1 && i == 0 {
+						r = as.Rhs[0]
+					}
+					if r == nil {
+						continue
+					}
+					if k := mentionsLossy(r); k != "" {
+						if o := objOf(info, l); o != nil {
+							lossy[o] = k
+						}
+					}
+				}
+				return true
+			})
+		}
+		ast.Inspect(body, func(n ast.Node) bool {
+			call, ok := n.(*ast.CallExpr)
+			if !ok {
+				return true
+			}
+			switch {
+			case isCall(info, call, "cty.ParseNumberVal", "cty.MustParseNumberVal"):
+				rr.OK(fmt.Sprintf("%s.%s/%s", pkg, declName(fd), trunc(exprStr(call), 40)), call.Pos(), "exact parse")
+			case isCall(info, call, "cty.NumberFloatVal", "cty.NumberIntVal", "cty.NumberUIntVal", "cty.NumberVal") && len(call.Args) == 1:
+				key := fmt.Sprintf("%s.%s/%s", pkg, declName(fd), trunc(exprStr(call), 40))
+				if k := mentionsLossy(call.Args[0]); k != "" {
+					rr.Violation(key, call.Pos(), fmt.Sprintf("a number obtained through %s becomes a cty number: the float64 / int64 detour loses digits the JSON document spelled out (integers above 2^53, long decimals), so the decoded value differs from the one that was encoded", k))
+				} else {
+					rr.OKTrivial(key, call.Pos(), "the argument does not come from a lossy parse of the token")
+				}
+			}
+			return true
+		})
+	})
+}
+
+// ---------------------------------------------------------------------------
+// C10.wrapper-keeps-spec, C06.capsule-payload-assignable, C16.dynamic-null-readable, C19.set-equal-symmetric
+
+func init() {
+	register(&Rule{
+		ID: "C10.wrapper-keeps-spec", Prop: "C10", Also: []string{"C12"}, Floor: 2, Controls: 0,
+		Doc: "a function of package function that derives a new Function from an existing one (Unpredictable, WithNewDescriptions) starts from a copy of the whole Spec (*f.spec) or from a Spec literal that sets every field: a wrapper rebuilt field by field that leaves one out (RefineResult, VarParam, Type) silently drops that part of the declared contract",
+		Run: runWrapperKeepsSpec,
+	})
+	register(&Rule{
+		ID: "C06.capsule-payload-assignable", Prop: "C06", Floor: 1, Controls: 0,
+		Doc: "CapsuleVal builds a capsule value only where the pointed-to Go type of the payload was tested assignable to (or identical with) the capsule type's native Go type: a merely convertible type yields a value whose EncapsulatedValue is not a pointer to the declared type",
+		Run: runCapsulePayloadAssignable,
+	})
+	register(&Rule{
+		ID: "C16.dynamic-null-readable", Prop: "C16", Also: []string{"C17"}, Floor: 1, Controls: 0,
+		Doc: "writer/reader agreement for an untyped null in a dynamic position: the MessagePack encoder writes nil for every null before the kind dispatch, so unmarshalDynamic accepts the nil token (array length -1, or a Nil code peeked) and returns a null of the dynamic type without error before it insists on the two-element wrapper",
+		Run: runDynamicNullReadable,
+	})
+	register(&Rule{
+		ID: "C19.set-equal-symmetric", Prop: "C19", Also: []string{"C03"}, Floor: 1, Controls: 0,
+		Doc: "an equality test between two sets (PathSet.Equal) treats both operands alike: it compares the two lengths before testing inclusion one way, or tests inclusion both ways (SymmetricDifference, or a body that is invariant under swapping the operands); inclusion one way alone is the subset relation",
+		Run: runSetEqualSymmetric,
+	})
+}
+
+func runWrapperKeepsSpec(rr *RuleRun) {
+	c := rr.Ctx
+	pkg := "cty/function"
+	info := c.Info(pkg)
+	specT := c.Pkg(pkg).Types.Scope().Lookup("Spec")
+	if specT == nil {
+		rr.Broken("stale anchor: type function.Spec not found")
+		return
+	}
+	st, _ := specT.Type().Underlying().(*types.Struct)
+	for _, fd := range c.SortedDecls(pkg) {
+		fn, _ := info.Defs[fd.Name].(*types.Func)
+		if fn == nil {
+			continue
+		}
+		sig := fn.Type().(*types.Signature)
+		takesFunction := sig.Recv() != nil && namedType(sig.Recv().Type()) == "cty/function.Function"
+		for i := 0; i < sig.Params().Len(); i++ {
+			if namedType(sig.Params().At(i).Type()) == "cty/function.Function" {
+				takesFunction = true
+			}
+		}
+		returnsFunction := sig.Results().Len() >= 1 && namedType(sig.Results().At(0).Type()) == "cty/function.Function"
+		if !takesFunction || !returnsFunction {
+			continue
+		}
+		inspectNoLit(fd.Body, func(n ast.Node) bool {
+			call, ok := n.(*ast.CallExpr)
+			if !ok || !isCall(info, call, pkg+".New") || len(call.Args) != 1 {
+				return true
+			}
+			key := fmt.Sprintf("%s.%s/New(%s)", pkg, declName(fd), exprStr(call.Args[0]))
+			arg := ast.Unparen(call.Args[0])
+			if u, ok := arg.(*ast.UnaryExpr); ok && u.Op == token.AND {
+				arg = ast.Unparen(u.X)
+			}
+			var lit *ast.CompositeLit
+			switch x := arg.(type) {
+			case *ast.CompositeLit:
+				lit = x
+			case *ast.Ident:
+				if o := objOf(info, x); o != nil {
+					if _, idx, rhs := findDefine(info, fd.Body, o); rhs != nil && len(rhs) > idx {
+						switch r := ast.Unparen(rhs[idx]).(type) {
+						case *ast.StarExpr:
+							rr.OK(key, call.Pos(), "the new Spec starts as a copy of the whole existing Spec ("+exprStr(r)+")")
+							return true
+						case *ast.CompositeLit:
+							lit = r
+						case *ast.UnaryExpr:
+							if cl, ok := ast.Unparen(r.X).(*ast.CompositeLit); ok {
+								lit = cl
+							}
+						}
+					}
+				}
+			}
+			if lit == nil {
+				rr.Assumed(key, call.Pos(), "the origin of the Spec handed to New is not a copy or a literal the analysis can see")
+				return true
+			}
+			have := map[string]bool{}
+			for _, el := range lit.Elts {
+				if kv, ok := el.(*ast.KeyValueExpr); ok {
+					if id, ok := kv.Key.(*ast.Ident); ok {
+						have[id.Name] = true
+					}
+				}
+			}
+			// fields assigned afterwards (newSpec.X = …)
+			inspectNoLit(fd.Body, func(m ast.Node) bool {
+				if as, ok := m.(*ast.AssignStmt); ok {
+					for _, l := range as.Lhs {
+						if se, ok := l.(*ast.SelectorExpr); ok {
+							if id, ok := arg.(*ast.Ident); ok && objOf(info, se.X) == objOf(info, id) {
+								have[se.Sel.Name] = true
+							}
+						}
+					}
+				}
+				return true
+			})
+			var missing []string
+			for i := 0; st != nil && i < st.NumFields(); i++ {
+				if !have[st.Field(i).Name()] {
+					missing = append(missing, st.Field(i).Name())
+				}
+			}
+			if len(lit.Elts) > 0 {
+				if _, keyed := lit.Elts[0].(*ast.KeyValueExpr); !keyed && st != nil && len(lit.Elts) == st.NumFields() {
+					missing = nil
+				}
+			}
+			if len(missing) == 0 {
+				rr.OK(key, call.Pos(), "the Spec literal sets every field")
+			} else {
+				rr.Violation(key, call.Pos(), fmt.Sprintf("the wrapper rebuilds the Spec field by field and leaves out %s: that part of the wrapped function's declared contract is silently dropped", strings.Join(missing, ", ")))
+			}
+			return true
+		})
+	}
+}
+
+func runCapsulePayloadAssignable(rr *RuleRun) {
+	c := rr.Ctx
+	info := c.Info("cty")
+	fd := rr.MustDecl("cty", "CapsuleVal")
+	if fd == nil {
+		return
+	}
+	cf := c.CondFacts(fd.Body, info, nil)
+	g := c.CFG(fd.Body, info)
+	n := 0
+	for _, ret := range g.Returns() {
+		if len(ret.Results) != 1 {
+			continue
+		}
+		if _, ok := ast.Unparen(ret.Results[0]).(*ast.CompositeLit); !ok {
+			continue
+		}
+		n++
+		key := "cty.CapsuleVal/return " + trunc(exprStr(ret.Results[0]), 30)
+		ok := cf.HoldsAt(ret, func(cond ast.Expr, truth bool) bool {
+			if call, isCall_ := ast.Unparen(cond).(*ast.CallExpr); isCall_ && truth {
+				return funcKey(callee(info, call)) == "reflect.Type.AssignableTo"
+			}
+			if be, isBin := ast.Unparen(cond).(*ast.BinaryExpr); isBin && be.Op == token.EQL && truth {
+				return namedType(info.TypeOf(be.X)) == "reflect.Type" && namedType(info.TypeOf(be.Y)) == "reflect.Type"
+			}
+			return false
+		})
+		if ok {
+			rr.OK(key, ret.Pos(), "the payload's pointed-to type was tested assignable to the capsule's Go type on every path")
+		} else {
+			rr.Violation(key, ret.Pos(), "a capsule value is built on a path that has not established that the payload's pointed-to Go type is assignable to the capsule type's native type (reflect.Type.AssignableTo): a merely convertible or unrelated type makes EncapsulatedValue hand out a pointer of the wrong type")
+		}
+	}
+	if n == 0 {
+		rr.Broken("stale anchor: CapsuleVal returns no Value literal")
+	}
+}
+
+func runDynamicNullReadable(rr *RuleRun) {
+	c := rr.Ctx
+	pkg := "cty/msgpack"
+	info := c.Info(pkg)
+	fd := rr.MustDecl(pkg, "unmarshalDynamic")
+	if fd == nil {
+		return
+	}
+	cf := c.CondFacts(fd.Body, info, nil)
+	g := c.CFG(fd.Body, info)
+	found := false
+	for _, ret := range g.Returns() {
+		if len(ret.Results) != 2 || !isNilIdent(info, ret.Results[1]) {
+			continue
+		}
+		call, ok := ast.Unparen(ret.Results[0]).(*ast.CallExpr)
+		if !ok || !isCall(info, call, "cty.NullVal") || len(call.Args) != 1 || !isPkgVar(info, call.Args[0], "cty", "DynamicPseudoType") {
+			continue
+		}
+		nilSeen := cf.HoldsAt(ret, func(cond ast.Expr, truth bool) bool {
+			if !truth {
+				return false
+			}
+			if be, ok := ast.Unparen(cond).(*ast.BinaryExpr); ok && be.Op == token.EQL {
+				if v, ok := constInt(info, be.Y); ok && v == -1 {
+					return true
+				}
+				if v, ok := constInt(info, be.X); ok && v == -1 {
+					return true
+				}
+				// PeekCode() == msgpcode.Nil
+				return strings.Contains(exprStr(be), "Nil")
+			}
+			return false
+		})
+		if nilSeen {
+			found = true
+			rr.OK(pkg+".unmarshalDynamic/nil→null", ret.Pos(), "a nil token (array length -1) is decoded as a null of the dynamic type")
+		}
+	}
+	if !found {
+		rr.Violation(pkg+".unmarshalDynamic/nil→null", fd.Pos(), "unmarshalDynamic has no path that accepts the nil token (DecodeArrayLen == -1) and returns cty.NullVal(cty.DynamicPseudoType) without error, although the encoder writes a bare nil for an untyped null in a dynamic position: such a value no longer round-trips")
+	}
+}
+
+func runSetEqualSymmetric(rr *RuleRun) {
+	c := rr.Ctx
+	info := c.Info("cty")
+	for _, name := range []string{"PathSet.Equal"} {
+		fd := rr.MustDecl("cty", name)
+		if fd == nil {
+			continue
+		}
+		recv := info.Defs[fd.Recv.List[0].Names[0]]
+		other := info.Defs[paramIdent(fd, 0)]
+		key := "cty." + name
+		// (a) both lengths are compared, or (b) a symmetric operation is used, or (c) inclusion is tested both ways
+		lenOf := map[types.Object]bool{}
+		hasOn := map[types.Object]bool{} // X.…Has(...) — inclusion of the other's members in X
+		symmetric := false
+		inspectNoLit(fd.Body, func(n ast.Node) bool {
+			call, ok := n.(*ast.CallExpr)
+			if !ok {
+				return true
+			}
+			se, ok := call.Fun.(*ast.SelectorExpr)
+			if !ok {
+				return true
+			}
+			root := rootObj(info, se.X)
+			switch se.Sel.Name {
+			case "Length":
+				lenOf[root] = true
+			case "Has":
+				hasOn[root] = true
+			case "SymmetricDifference":
+				symmetric = true
+			case "Equal":
+				if root != recv || len(call.Args) != 1 || rootObj(info, call.Args[0]) != other {
+					return true
+				}
+				symmetric = true
+			}
+			return true
+		})
+		switch {
+		case symmetric:
+			rr.OK(key, fd.Pos(), "uses a symmetric set operation")
+		case lenOf[recv] && lenOf[other]:
+			rr.OK(key, fd.Pos(), "compares the lengths of both sets before testing inclusion")
+		case hasOn[recv] && hasOn[other]:
+			rr.OK(key, fd.Pos(), "tests inclusion both ways")
+		default:
+			rr.Violation(key, fd.Pos(), "the equality test neither compares the lengths of both sets nor tests inclusion both ways nor uses a symmetric operation: inclusion one way alone is the subset relation, so a strict subset compares equal to its superset (and Equal is not symmetric)")
+		}
+	}
+}
+
+// rootObj: the object at the root of a selector / call chain (s.set.Length() → s).
+func rootObj(info *types.Info, e ast.Expr) types.Object {
+	for {
+		switch x := ast.Unparen(e).(type) {
+		case *ast.SelectorExpr:
+			e = x.X
+		case *ast.CallExpr:
+			if se, ok := x.Fun.(*ast.SelectorExpr); ok {
+				e = se.X
+			} else {
+				return nil
+			}
+		case *ast.Ident:
+			return objOf(info, x)
+		default:
+			return nil
+		}
+	}
+}
